@@ -16,6 +16,7 @@ MODEL_MODULES = ["BaizeVerif.Model.Cookie", "BaizeVerif.Model.Headers"]
 DRIVER_OPS = {
     "hdr_seq": "Headers.runSeq",
     "hdr_emit": "Headers.runEmit",
+    "hdr_emit1": "Headers.runEmit1",
     "iri": "Headers.runIri",
 }
 THEOREMS = [
@@ -31,6 +32,7 @@ THEOREMS = [
     "Baize.Headers.cookie_line_clean",
     "Baize.Headers.redirect_safe",
     "Baize.Headers.emitted_lines_clean",
+    "Baize.Headers.asgi_emit_refuses_or_clean",
 ]
 GEN_MODULES = ["c13", "c16"]
 MANIFEST = {
@@ -192,6 +194,21 @@ def impl(line):
             h = MutableHeaders(init if args[1] != "N" else None)
             outs = [apply_op(h, t) for t in args[2:]]
             return " ".join(outs + ["|", render_items(list(h.items()))])
+        if op == "hdr_emit1":
+            # one interface alone: text outside Latin-1 allowed (WSGI hands the strings over, ASGI must encode them)
+            iface, kind, url = args[1], args[2], dec_text(args[3])
+            init = parse_pairs(args[4])
+            cookies = parse_pairs(args[5])
+            hd = None if args[4] == "N" else list(init)
+            if kind == "redirect":
+                resp = (WsgiRedirect if iface == "wsgi" else AsgiRedirect)(url, headers=hd)
+            else:
+                resp = (WsgiResponse if iface == "wsgi" else AsgiResponse)(headers=hd)
+            outs = [apply_op(resp.headers, t) for t in args[6:]]
+            for n, v in cookies:
+                resp.set_cookie(n, v)
+            hs = run_wsgi(resp) if iface == "wsgi" else run_asgi(resp)
+            return " ".join(outs + ["|", render_items(hs)])
         if op == "hdr_emit":
             kind, url = args[1], dec_text(args[2])
             init = parse_pairs(args[3])
@@ -284,6 +301,14 @@ def oracle(line, out):
                 if has_ctl(k) or has_ctl(v):
                     return "the mapping holds %r: %r after the sequence" % (k, v)
         return None
+    if op == "hdr_emit1":
+        iface = args[1]
+        if out == "crash UnicodeEncodeError" and iface == "asgi":
+            texts = [dec_text(args[3])] + [x for p in parse_pairs(args[4]) + parse_pairs(args[5]) for x in p] + \
+                    [x for t in args[6:] for x in parse_op(t)[1]]
+            if any(ord(c) > 255 for t in texts for c in t):
+                return None      # text outside Latin-1: refusing to emit splits nothing
+        return oracle(" ".join(["hdr_emit"] + args[2:]), out)
     if op == "hdr_emit":
         kind, url = args[1], dec_text(args[2])
         init = parse_pairs(args[3])
@@ -533,5 +558,20 @@ def cases(rng, tier):
         ops = [rand_op(rng, True) for _ in range(rng.randrange(0, 5))]
         yield ("hdr_emit %s %s %s %s %s" % (kind, enc(url), rand_init(rng, True),
                                            mk_pairs("C", cookies) if cookies else "N", " ".join(ops))).rstrip()
+    # -- one interface alone, text of any width (the ASGI presentation must encode it: refuse or emit clean)
+    wide_vals = ["\u4e2d", "\u4e2d" * 17, "a" * 58 + "\u4e2d", "\u20ac 5", "\U0001f600", "caf\u00e9 \u0100", "x\r\n\u4e2d", "\u4e2d\n"]
+    for v in wide_vals:
+        for tag in ("S", "A", "U", "F"):
+            for iface in ("wsgi", "asgi"):
+                yield "hdr_emit1 %s plain - N N %s" % (iface, mk_pairs(tag, [("x-title", v)]))
+                if v.lower() == v and v.upper() == v:      # names are lower-cased: the model's case table is Latin-1
+                    yield "hdr_emit1 %s plain - N N %s" % (iface, mk_pairs(tag, [(v, "1")]))
+    for _ in range(20000 if thorough else 3000):
+        kind = rng.choice(["plain", "plain", "redirect"])
+        url = rand_url(rng) if kind == "redirect" else ""
+        cookies = [(rand_str(rng, dangerous, True), rand_str(rng, dangerous, True)) for _ in range(rng.randrange(0, 3))]
+        ops = [rand_op(rng, False) for _ in range(rng.randrange(0, 5))]
+        yield ("hdr_emit1 %s %s %s %s %s %s" % (rng.choice(["wsgi", "asgi"]), kind, enc(url), rand_init(rng, False),
+                                              mk_pairs("C", cookies) if cookies else "N", " ".join(ops))).rstrip()
     for _ in range(40000 if thorough else 5000):
         yield "iri " + enc(rand_url(rng))
